@@ -18,10 +18,11 @@ PROP = {'lean_props': ['Comrak.Props.C07'],
                        'cm_prefix_after_literal_counterexample',
                        'pct2X_wellformed',
                        'item_exit_restores_prefix',
-                       'output_keeps_frame'],
+                       'output_keeps_frame',
+                       'cm_round_trip_canon_partial'],
  'strength': 'partial: proved for all inputs are the delimiter/fence/escape/table-pipe facts about the writer model (byte-equal to the real writer on '
              'every generated tree); the round-trip relation itself is false on the pinned tree (Lean witnesses + listed finding classes) and is '
-             'decided per input by the search oracle on the real parser and writer',
+             'decided per input by the search oracle on the real parser and writer; on the sub-class Doc.cmOk of the C03 canonical documents the round trip is a theorem modulo the K correspondence (cm_round_trip_canon_partial: the writer model reproduces the document\'s own text)',
  'trusted_base': CM_TB,
  'assumptions': ['claimed class of the two round-trip oracles (S): documents built from the standard constructs (paragraphs, ATX/setext headings, thematic breaks, '
                  'fenced/indented code, block quotes, bullet/ordered lists tight/loose, task items, HTML blocks, tables, one referenced footnote; emphasis/strong, '
